@@ -32,7 +32,31 @@ fn usage() -> ! {
     std::process::exit(2)
 }
 
+/// Rare-branch probes for free: every `log::debug!` of the DataFusion crates that fires during a run is
+/// counted under `log.<file>:<line>` (e.g. the multi-level merge re-spilling a skewed run, the nested
+/// loop join entering its spill fallback). Nothing is formatted or printed; counting cannot influence
+/// a schedule.
+struct ProbeLogger;
+impl log::Log for ProbeLogger {
+    fn enabled(&self, m: &log::Metadata) -> bool {
+        m.level() <= log::Level::Debug
+            && ["datafusion_physical_plan", "datafusion_execution", "datafusion_datasource", "datafusion_physical_expr", "datafusion_catalog"]
+                .iter()
+                .any(|p| m.target().starts_with(p))
+    }
+    fn log(&self, r: &log::Record) {
+        if self.enabled(r.metadata()) {
+            let file = r.file().map(|f| f.rsplit('/').next().unwrap_or(f)).unwrap_or("?");
+            sim::probe(&format!("probe.log.{}:{}", file, r.line().unwrap_or(0)));
+        }
+    }
+    fn flush(&self) {}
+}
+static PROBE_LOGGER: ProbeLogger = ProbeLogger;
+
 fn main() {
+    let _ = log::set_logger(&PROBE_LOGGER);
+    log::set_max_level(log::LevelFilter::Debug);
     let args: Vec<String> = std::env::args().skip(1).collect();
     if args.is_empty() {
         usage();
@@ -42,6 +66,15 @@ fn main() {
         if std::env::var_os("VERIF_DEBUG").is_some() {
             eprintln!("[panic] {info}");
         }
+        let msg = if let Some(s) = info.payload().downcast_ref::<&str>() {
+            s.to_string()
+        } else if let Some(s) = info.payload().downcast_ref::<String>() {
+            s.clone()
+        } else {
+            "non-string panic".to_string()
+        };
+        let loc = info.location().map(|l| format!(" at {}:{}", l.file().rsplit('/').next().unwrap_or(""), l.line())).unwrap_or_default();
+        sim::note_panic(format!("{msg}{loc}"));
     }));
     runner::ensure_no_aslr();
     datafusion_common_runtime::set_join_set_tracer(&sim::TRACER).expect("tracer");
